@@ -118,7 +118,8 @@ class Extraction:
                 print("ANALYSIS-BROKEN: anchored source file missing: %s" % src)
                 sys.exit(2)
             fl = flags_for(rel, config, self.gen_inc, self.repo, pre_inc) + (extra_flags or [])
-            tag = ("." + str(abs(hash(tuple(fl))) % 1000000)) if (pre_inc or extra_flags) else ""
+            # (flag-specific outputs are also process-specific: self-check mutants are analysed in forked workers)
+            tag = ("." + str(abs(hash(tuple(fl))) % 1000000) + "." + str(os.getpid())) if (pre_inc or extra_flags or os.path.isabs(rel)) else ""
             out = os.path.join(self.dir, config + "__" + rel.replace("/", "_") + (".main" if main_only else ".all") + tag + ".json")
             outs[rel] = out
             key = (src, config, tuple(fl), main_only)
